@@ -116,7 +116,11 @@ class PlaceholderMaker:
         }
 
     def get_placeholder(self, element, ttype, close_ph):
-        tag = etree.tounicode(element)
+        # Serialize a detached copy: an element inside its document also
+        # carries the namespace declarations it merely inherits, and an
+        # identical element must get the same key whatever else its
+        # document declares.
+        tag = etree.tounicode(deepcopy(element))
         ph = self.tag2placeholder.get((tag, ttype, close_ph))
         if ph is not None:
             return ph
